@@ -324,6 +324,34 @@ func init() {
 			}
 			mu.Unlock()
 		})
+		// record-shaped layer: for the record types with a structured value, every
+		// value of 0..5 blank-separated fields over a small field alphabet (empty
+		// fields, i.e. leading, trailing and doubled blanks, included)
+		fields := []string{"", "0", "10", "example.org", "example.org.", "alpn=h2"}
+		var shaped []string
+		enum.SequencesUpTo(len(fields), 5, func(s []int) bool {
+			var parts []string
+			for _, t := range s {
+				parts = append(parts, fields[t])
+			}
+			shaped = append(shaped, strings.Join(parts, " "))
+			return true
+		})
+		shapedTypes := []string{"MX", "SRV", "HTTPS", "SVCB", "TXT", "PTR"}
+		c.parallel(len(shapedTypes), func(i int) {
+			var le, la int64
+			for _, v := range shaped {
+				le++
+				if c10Check(c, "NOERROR;"+shapedTypes[i]+";"+v) {
+					la++
+				}
+			}
+			mu.Lock()
+			evals += le
+			accepted += la
+			mu.Unlock()
+		})
+		c.Run.Set("record_shaped_values", int64(len(shaped)*len(shapedTypes)))
 		c.Run.Sample(map[string]any{"value": "NOERROR;MX;10 example.org", "accepted": c10Check(c, "NOERROR;MX;10 example.org")})
 		c.Run.Sample(map[string]any{"value": "REFUSED;A;1.2.3.4", "accepted": c10Check(c, "REFUSED;A;1.2.3.4")})
 		c.Run.Sample(map[string]any{"value": "::ffff:1.2.3.4", "accepted": c10Check(c, "::ffff:1.2.3.4")})
